@@ -85,6 +85,26 @@ def isBuiltinName (s : String) : Bool := (lookupAL s Gen.fromIdent).isSome
     model, so it is a parameter (the harness supplies the real answers). -/
 abbrev ParseFn := String → Option (List LArg × String)
 
+/-- `extend_lambda_body`: a lambda body is parsed without via / into / where, so the text
+    "(x) => a via f" reads as ((x) => a) via f; the operators that follow the lambda on the
+    left spine are given back to its body -/
+def extendLambdaBody : Expr → Expr
+  | .bin op l r =>
+    match extendLambdaBody l with
+    | .lambda args body => .lambda args (.bin op body r)
+    | l' => .bin op l' r
+  | e => e
+
+/-- `parse_function_source` after the parser: `stmts` are the expression statements of the
+    text in order (the parser itself is not part of this model); the first one that is a
+    function - after `extend_lambda_body` - is the answer -/
+def parseFunctionSource : List Expr → Option (List LArg × String)
+  | [] => none
+  | e :: rest =>
+    match extendLambdaBody e with
+    | .lambda args body => some (args, exprToSource body)
+    | _ => parseFunctionSource rest
+
 /-- the `__blots_function` rule of `from_json` on the members of an object -/
 def fnObject (pf : ParseFn) (ms : List (String × Json)) : Option SV :=
   match lookupAL "__blots_function" ms with
@@ -148,6 +168,43 @@ end
 /-! ### `from_value` / `to_value` -/
 
 mutual
+/-- `SerializableValue::from_captured_value`: as `from_value`, for a value that is written
+    into the source of the function that captured it; the body of a captured function gets
+    the parentheses a lambda body needs inside a larger expression -/
+def fromCaptured : Value → Outcome SV
+  | .num x => .ok (.num x)
+  | .bool b => .ok (.bool b)
+  | .null => .ok .null
+  | .str s => .ok (.str s)
+  | .list xs =>
+    (match fromCapturedList xs with
+     | .ok l => .ok (.list l) | .err k => .err k | .panic s => .panic s | .fuel => .fuel)
+  | .record r =>
+    (match fromCapturedRec r with
+     | .ok l => .ok (.record l) | .err k => .err k | .panic s => .panic s | .fuel => .fuel)
+  | .lambda _ args body scope =>
+    (match fromCapturedRec scope with
+     | .ok sc => .ok (.lambda args (parenIf (lambdaBodyNeedsParens body) (exprSrc sc body)))
+     | .err k => .err k | .panic s => .panic s | .fuel => .fuel)
+  | .builtin n => .ok (.builtin n)
+  | .spread _ => .err .other
+def fromCapturedList : List Value → Outcome (List SV)
+  | [] => .ok []
+  | x :: xs =>
+    match fromCaptured x with
+    | .ok y => (match fromCapturedList xs with
+                | .ok ys => .ok (y :: ys) | .err k => .err k | .panic s => .panic s | .fuel => .fuel)
+    | .err k => .err k | .panic s => .panic s | .fuel => .fuel
+def fromCapturedRec : List (String × Value) → Outcome (List (String × SV))
+  | [] => .ok []
+  | (k, x) :: r =>
+    match fromCaptured x with
+    | .ok y => (match fromCapturedRec r with
+                | .ok ys => .ok ((k, y) :: ys) | .err e => .err e | .panic s => .panic s | .fuel => .fuel)
+    | .err e => .err e | .panic s => .panic s | .fuel => .fuel
+end
+
+mutual
 /-- `SerializableValue::from_value`: a spread cannot be serialised; a lambda is emitted
     with its captured scope inlined (`expr_to_source_with_scope`) -/
 def fromValue : Value → Outcome SV
@@ -162,8 +219,8 @@ def fromValue : Value → Outcome SV
     (match fromValueRec r with
      | .ok l => .ok (.record l) | .err k => .err k | .panic s => .panic s | .fuel => .fuel)
   | .lambda _ args body scope =>
-    (match fromValueRec scope with
-     | .ok sc => .ok (.lambda args (parenIf (lambdaBodyNeedsParens body) (exprSrc sc body)))
+    (match fromCapturedRec scope with
+     | .ok sc => .ok (.lambda args (exprSrc sc body))
      | .err k => .err k | .panic s => .panic s | .fuel => .fuel)
   | .builtin n => .ok (.builtin n)
   | .spread _ => .err .other
